@@ -55,7 +55,7 @@ func (t *Tape) Choose(n int) int {
 	} else {
 		v = uint32(t.next64()>>33) % uint32(n)
 	}
-	t.Out = append(t.Out, v)
+	t.Out = Push(t.Out, v)
 	return int(v)
 }
 
